@@ -289,6 +289,23 @@ def run(rep, tier):
         rep.check(ok, "R4.5", "clear-before-fill|" + fn, "current histogram cleared before each frame is binned",
                   "Imc::Worker::%s fills a per-frame histogram that was not cleared first (frames accumulate into each other)" % fn, f.loc(), sample=True)
 
+    # ---------------------------------------------------------------- R4.7 which pairs are counted
+    rep.rule("R4.7", "the two-body distribution counts the non-excluded pairs: the neighbour search whose match function fills the per-frame histogram is generated with "
+                     "do_exclusions = !include_intra_ for same-type and for cross-type interactions alike")
+    dn = F.one(I + "Worker::DoNonbonded")
+    fdn = Fold(dn, record_calls=r"NBList::Generate$|NBList::SetMatchFunction$", opaque_types=r"BeadList|unique_ptr").run()
+    hist = [e for e in fdn.events if e["kind"] == "call" and e["callee"].endswith("SetMatchFunction") and "current_hists_" in str(e["args"])]
+    ok7, why7 = len(hist) == 1, "expected one neighbour search feeding current_hists_ through a match function, found %d" % len(hist)
+    if ok7:
+        gens = [e for e in fdn.events if e["kind"] == "call" and e["callee"].endswith("NBList::Generate") and str(e["obj"]) == str(hist[0]["obj"])]
+        want_flag = ("!", S("imc_->include_intra_"))
+        arities = sorted(len(e["args"]) for e in gens)
+        bad7 = [e for e in gens if e["args"][-1] != want_flag]
+        ok7 = arities == [2, 3] and not bad7
+        why7 = "its Generate calls pass %s as exclusion flag (required !include_intra_ in the same-type and in the cross-type branch)" % [str(e["args"][-1]) for e in gens]
+    rep.check(ok7, "R4.7", "exclusion-flag", "pairs are generated with do_exclusions = !include_intra_ in both branches", "Imc::Worker::DoNonbonded: " + why7,
+              dn.loc(bad7[0]["node"]) if ok7 is False and len(hist) == 1 and bad7 else dn.loc(), sample=True)
+
     # ---------------------------------------------------------------- R4.6
     proc = F.one("votca::tools::HistogramNew::Process")
     rep.analysed(proc)
